@@ -100,6 +100,6 @@ def _check(api):
     api.oblige(api.entry, 'has-normal-exit', len(n) >= 1)
 
 
-m2task('_clientTLS13Handshake/server-auth', ('C05',), TC + '_clientTLS13Handshake', SPEC, check=_check,
+m2task('_clientTLS13Handshake/server-auth', ('C05',), TC + '_clientTLS13Handshake', SPEC, check=_check, opts={'ground_feasible': True},
        doc='TLS 1.3 client: the server certificate chain is recorded in the session only on paths where the '
            'CertificateVerify signature verified (right key, right message, right transcript snapshot, offered scheme)')
